@@ -1,5 +1,7 @@
 """C07 - forcing recomputes exactly what was asked."""
-from ..core import Prop
+from pathlib import Path
+
+from ..core import Prop, Suite
 from ..suites_hist import Histories
 
 
@@ -9,9 +11,73 @@ class Forcing(Histories):
     checks = ('force', 'values')
 
 
+class NameModeForce(Suite):
+    """persistence by config name (parameter_mode=False): two configs whose names are related as prefix share a data
+    directory; forcing with delete_data in one chain must leave the other chain's results alone (runtime check; the
+    history model is parameter mode)"""
+    name = 'name_mode_forcing'
+    model = ''
+
+    def gen(self, rng, tier):
+        return [dict(names=n, data=d, delete=de) for n in (['exp1', 'exp10'], ['base', 'base_v2'], ['a', 'b'])
+                for d in ('json', 'dir') for de in (True, False)]
+
+    def run_impl(self, case):
+        from pathlib import Path
+        from .. import pipeline as pl
+        from ..suites_chain import K
+        classes = [dict(K(0, 'Feat', data=case['data']), name='features'), dict(K(1, 'Score', meta_inputs=[{'cls': 0}]), name='score')]
+        files = {f'{n}.json': {'tasks': ['@M.*']} for n in case['names']}
+        full = dict(classes=classes, files=files, base={'file': f'{case["names"][0]}.json'}, context=None)
+        with pl.workspace(full) as (d, mod):
+            def chain(n):
+                return pl.build_config(full, mod, base={'file': f'{n}.json'}).chain(parameter_mode=False)
+            chains = {n: chain(n) for n in case['names']}
+            for ch in chains.values():
+                for t in ch.tasks.values():
+                    t.value
+            listing = lambda: sorted(str(p) for p in Path('data').rglob('*') if not p.name.endswith(('.log', '.yaml')))
+            before = listing()
+            first, other = case['names']
+            chains[first].force('features', delete_data=case['delete'])
+            after = listing()
+            pl.RUNLOG.clear()
+            fresh = chain(other)
+            has = {n: bool(t.has_data) for n, t in fresh.tasks.items()}
+            for t in fresh.tasks.values():
+                t.value
+            flags = {n: bool(t.is_forced) for n, t in chains[first].tasks.items()}
+            return dict(before=before, after=after, other_has=has, other_runs=[s for _, s, _ in pl.RUNLOG], flags=flags)
+
+    def oracle(self, case, obs):
+        if 'unexpected_exception' in obs:
+            return f'unexpected exception {obs["unexpected_exception"]}: {obs["text"]}'
+        first, other = case['names']
+        owner = lambda p: (Path(p).parts[2].split('.')[0] if len(Path(p).parts) > 2 else '')
+        mine = lambda p: owner(p) in (first, first + '_tmp', first + '_old', first + '_error')
+        lost = [p for p in obs['before'] if p not in obs['after'] and not mine(p)]
+        if lost:
+            return f'{case}: forcing in the chain of `{first}` removed results of the chain of `{other}`: {lost}'
+        if not all(obs['flags'].values()):
+            return f'{case}: forcing `features` did not mark everything downstream: {obs["flags"]}'
+        if not all(obs['other_has'].values()) or obs['other_runs']:
+            return (f'{case}: the never-forced chain of `{other}` has_data={obs["other_has"]} and ran {obs["other_runs"]} '
+                    f'after forcing in the chain of `{first}`')
+        left = [p for p in obs['after'] if owner(p) == first]
+        if case['delete'] and left:
+            return f'{case}: delete_data left results of the forced tasks: {left}'
+        return None
+
+    def nontrivial(self, case, obs):
+        return True
+
+    def key(self, case):
+        return repr(case)
+
+
 class C07(Prop):
     pid = 'C07'
-    suites = [Forcing()]
+    suites = [Forcing(), NameModeForce()]
     assumptions = ['Chain.force iterates a set: the recomputation order is arbitrary, the model uses one order and the '
                    'comparison sorts the runs of that operation']
 
